@@ -180,7 +180,12 @@ pub fn accepted(rng: &mut Rng, o: &Opts) -> (B, Vec<u8>) {
   }
   if o.unknown_keys {
     for _ in 0..rng.below(3) {
-      let k = if rng.chance(1, 4) { rng.pick(&["info", "a", "zinfo"]).as_bytes().to_vec() } else { unknown_key(rng, &INFO_KEYS) };
+      // (invented keys, and keys other programs really write into the info dictionary)
+      let k = match rng.below(8) {
+        0 | 1 => rng.pick(&["info", "a", "zinfo"]).as_bytes().to_vec(),
+        2 | 3 => rng.pick(&["meta version", "file tree", "name.utf-8", "publisher", "publisher-url", "x_cross_seed", "entropy", "profiles", "file-duration", "file-media", "ttl", "unique", "cert", "root hash", "similar", "collections", "piece layers", "pieces root"]).as_bytes().to_vec(),
+        _ => unknown_key(rng, &INFO_KEYS),
+      };
       if !info.iter().any(|(kk, _)| *kk == k) {
         let d = rng.below(o.max_depth as u64 + 1) as usize;
         let v = if rng.chance(1, 4) { decoy_value(rng) } else { rand_value(rng, d) };
@@ -224,7 +229,7 @@ pub fn accepted(rng: &mut Rng, o: &Opts) -> (B, Vec<u8>) {
   }
   if o.unknown_keys {
     for _ in 0..rng.below(3) {
-      let k = if rng.chance(1, 3) { rng.pick(&["azureus_properties", "a", "hidden info", "info ", "infox", "libtorrent_resume", "INFO", "Info", "url-list", "publisher", "magnet-uri", "nodes "]).as_bytes().to_vec() } else { unknown_key(rng, &TOP_KEYS) };
+      let k = if rng.chance(1, 3) { rng.pick(&["azureus_properties", "a", "hidden info", "info ", "infox", "libtorrent_resume", "INFO", "Info", "url-list", "publisher", "magnet-uri", "nodes ", "piece layers", "httpseeds", "rss", "website", "locale", "title", "signatures", "meta version", "creation date ", "Announce"]).as_bytes().to_vec() } else { unknown_key(rng, &TOP_KEYS) };
       if !top.iter().any(|(kk, _)| *kk == k) {
         let d = rng.below(o.max_depth as u64 + 1) as usize;
         let v = if rng.chance(1, 3) { decoy_value(rng) } else { rand_value(rng, d) };
